@@ -218,6 +218,43 @@ def reset_functions(P):
     return out
 
 
+def sets_unused_lanes(P, f, lanes, depth=0, ptr_param=None):
+    """constant propagation of the lane count: does f, called with `lanes`, reach a store that establishes unused_lanes —
+    directly, or in a helper that receives the lane count and a pointer to the field?"""
+    tu = f.tu
+    lane_param = None
+    if depth == 0:
+        lane_param = f.params[1]['name'] if len(f.params) > 1 else None
+    env = {lane_param: lanes} if lane_param else {}
+    if isinstance(ptr_param, dict):
+        env = dict(ptr_param.get('env', {}))
+    for b in f.reachable(None, env):
+        for ev in f.blocks[b]['ev']:
+            if ev['k'] == 'assign':
+                l = cf.strip_casts(ev['lhs'])
+                if l.get('f') == 'unused_lanes' or (l.get('k') == 'idx' and cf.strip_casts(l['b']).get('f') == 'unused_lanes'):
+                    return True
+                if isinstance(ptr_param, dict) and l.get('k') == 'un' and l.get('op') == '*' and \
+                        cf.strip_casts(l['e']).get('n') in ptr_param.get('ptrs', ()):
+                    return True
+            if ev['k'] == 'call' and depth < 2 and ev['e'].get('fn') and P.has(tu, ev['e']['fn']):
+                g = P.func(tu, ev['e']['fn'])
+                ptrs = set()
+                genv = {}
+                for i, prm in enumerate(g.params):
+                    if i >= len(ev['e'].get('a', [])):
+                        continue
+                    a = ev['e']['a'][i]
+                    if any(n.get('k') == 'mem' and n.get('f') == 'unused_lanes' for n in cf.walk(a)):
+                        ptrs.add(prm['name'])
+                    v = cf.evalc(a, env)
+                    if v is not None:
+                        genv[prm['name']] = v
+                if ptrs and sets_unused_lanes(P, g, lanes, depth + 1, {'ptrs': ptrs, 'env': genv}):
+                    return True
+    return False
+
+
 def rule_reset(chk, P, prefix='I'):
     i1 = chk.rule(prefix + '1', 'every out-of-order manager a variant can dispatch to is reset by that variant\'s reset_ooo_mgrs', floor=250)
     i2 = chk.rule(prefix + '2', 'reset function, allocation table and kernel prototype agree on the manager type of each *_ooo field', floor=300)
@@ -330,7 +367,8 @@ def rule_reset(chk, P, prefix='I'):
                          'kernel %s takes %s but state->%s is reset as %s' % (kname, ptype, fld, T))
             # I3
             if fld in live:
-                okl = info['uncond'] or not info['lane_cond'] or lanes in info['lanes']
+                okl = info['uncond'] or not info['lane_cond'] or lanes in info['lanes'] or \
+                    (lanes is not None and sets_unused_lanes(P, info['f'], lanes))
                 i3.check(okl, '%s:%s:%s' % (vt, fld, lanes), loc,
                          '%s(state->%s, %s): %s only initialises unused_lanes for %s lanes; the manager would have no free lane' % (
                              fn, fld, lanes, fn, sorted(info['lanes'])))
@@ -389,34 +427,58 @@ def rule_reattach(chk, P):
                  'ooo_mgr_table row %d has size %s / road block offset %s' % (i, v[1:2], v[2:3]))
     f = P.func(tu, 'imb_set_pointers_mb_mgr')
     n = len(tab['elems'])
-    # the set_ooo_ptr loop: for (i = 0; i < n; i++) on every path past the NULL check
-    loops = []
-    for bid, b in f.blocks.items():
-        t = b.get('term')
-        if t and t['kind'] == 'ForStmt':
-            body = f.reachable(b['succ'][0], stop=lambda x, bid=bid: x == bid)
-            if any(ev['k'] == 'call' and ev['e'].get('fn') == 'set_ooo_ptr' for x in body for ev in f.blocks[x]['ev']):
-                loops.append((bid, guards.canon(t.get('fullcond'))))
-    p1.check(len(loops) == 1 and loops[0][1] == 'i < %d' % n, 'loop', f.loc,
-             'imb_set_pointers_mb_mgr: pointer loop %s does not cover the %d table rows' % (loops, n))
+    # the loop that walks ooo_mgr_table: `for (v = 0; v < <rows>; v++)` whose body (or a callee of it) reads ooo_mgr_table[v]
+    def mentions_table(fn, bids, depth=0):
+        for x in bids:
+            for ev in fn.blocks[x]['ev']:
+                for k in ('e', 'lhs', 'rhs', 'val'):
+                    if ev.get(k) is not None:
+                        for nd in cf.walk(ev[k]):
+                            if nd.get('k') == 'ref' and nd.get('n') == 'ooo_mgr_table':
+                                return True
+                if ev['k'] == 'decl':
+                    for d in ev['d']:
+                        if d.get('init') is not None and any(nd.get('k') == 'ref' and nd.get('n') == 'ooo_mgr_table' for nd in cf.walk(d['init'])):
+                            return True
+                if ev['k'] == 'call' and depth < 2 and ev['e'].get('fn') and P.has(tu, ev['e']['fn']):
+                    g_ = P.func(tu, ev['e']['fn'])
+                    if mentions_table(g_, list(g_.blocks), depth + 1):
+                        return True
+        return False
+
+    def table_loops(fn, need_store=True):
+        res = []
+        for bid, b in fn.blocks.items():
+            t = b.get('term')
+            if t and t['kind'] == 'ForStmt' and b['succ'][0] is not None:
+                body = fn.reachable(b['succ'][0], stop=lambda x, bid=bid: x == bid)
+                if mentions_table(fn, body):
+                    res.append((bid, guards.canon(t.get('fullcond'))))
+        return res
+    loops = table_loops(f)
+    rsm = f.params[2]['name'] if len(f.params) > 2 else 'reset_mgr'
+    p1.check(len(loops) >= 1 and all(re.match(r'^\S+ < %d$' % n, c or '') for _, c in loops), 'loop', f.loc,
+             'imb_set_pointers_mb_mgr: table loop(s) %s do not cover the %d table rows' % (loops, n))
     if loops:
-        for env, tag in (({'reset_mgr': 0}, 're-attach'), ({'reset_mgr': 1}, 'fresh')):
+        for env, tag in (({rsm: 0}, 're-attach'), ({rsm: 1}, 'fresh')):
             reach = f.reachable(None, env)
-            p1.check(loops[0][0] in reach, 'loop:' + tag, f.loc, 'pointer loop not executed on the %s path' % tag)
+            p1.check(all(l[0] in reach for l in loops), 'loop:' + tag, f.loc, 'pointer loop not executed on the %s path' % tag)
             # must be on every path from the memset/switch to return: the loop head post-dominates the reset_mgr test
             pd = f.postdominators()
             tests = [b for b in f.blocks if (f.blocks[b].get('term') or {}).get('kind') == 'IfStmt' and
-                     guards.canon(f.blocks[b]['term'].get('fullcond')) in ('reset_mgr != 0', 'reset_mgr == 0')]
+                     guards.canon(f.blocks[b]['term'].get('fullcond')) in ('%s != 0' % rsm, '%s == 0' % rsm)]
             for tb in tests:
-                p1.check(loops[0][0] in pd.get(tb, ()), 'loop-postdom:' + tag, f.loc, 'a path skips the pointer loop after the reset_mgr test')
-        # road blocks
-        p1.check(any(ev['e'].get('fn') == 'set_ooo_mgr_road_block' for _, _, ev in f.calls()), 'road-block', f.loc,
-                 'imb_set_pointers_mb_mgr no longer sets the road blocks')
-        g = P.func(tu, 'set_ooo_mgr_road_block', required=False)
-        if g:
-            lc = [guards.canon(b['term'].get('fullcond')) for b in g.blocks.values() if (b.get('term') or {}).get('kind') == 'ForStmt']
-            p1.check(lc == ['n < %d' % n], 'road-block-loop', g.loc, 'set_ooo_mgr_road_block loop %s does not cover the %d rows' % (lc, n))
-    # P2: switch on used_arch
+                p1.check(any(l[0] in pd.get(tb, ()) for l in loops), 'loop-postdom:' + tag, f.loc, 'a path skips the pointer loop after the reset_mgr test')
+        # road blocks: a function called from here (or this one) walks the table a second time storing the road block
+        rb = [ev['e'].get('fn') for _, _, ev in f.calls() if ev['e'].get('fn') and P.has(tu, ev['e']['fn']) and
+              table_loops(P.func(tu, ev['e']['fn']))]
+        p1.check(bool(rb) or len(loops) >= 2, 'road-block', f.loc, 'imb_set_pointers_mb_mgr no longer sets the road blocks')
+        for gname in rb:
+            g = P.func(tu, gname)
+            lc = [c for _, c in table_loops(g)]
+            p1.check(all(re.match(r'^\S+ < %d$' % n, c or '') for c in lc), 'road-block-loop:' + gname, g.loc,
+                     '%s: loop %s does not cover the %d rows' % (gname, lc, n))
+    # P2: dispatch on the recorded architecture
     archs = set()
     for vtu in P.variant_tus():
         fi = init_func(P, vtu)
@@ -427,21 +489,31 @@ def rule_reattach(chk, P):
                 archs.add(cf.evalc(ev.get('rhs')))
     arch_enum = P.enum_types.get('IMB_ARCH', {})
     inv = {v: k for k, v in arch_enum.items()}
-    reach0 = f.reachable(None, {'reset_mgr': 0})
-    cases = {}
-    for b in reach0:
-        lab = f.blocks[b].get('label') or {}
-        if lab.get('kind') == 'CaseStmt':
-            v = cf.evalc(lab['case'])
-            calls = [(ev['e'].get('fn'), [cf.evalc(a) for a in ev['e']['a'][1:]]) for ev in f.blocks[b]['ev'] if ev['k'] == 'call']
-            cases[v] = calls
+    # locals that hold the recorded architecture (initialised from <x>->used_arch)
+    arch_locals = set()
+    for _, _, ev in f.events(('decl', 'assign')):
+        if ev['k'] == 'decl':
+            for d in ev['d']:
+                if d.get('init') is not None and any(nd.get('k') == 'mem' and nd.get('f') == 'used_arch' for nd in cf.walk(d['init'])):
+                    arch_locals.add(d['n'])
+        elif ev.get('rhs') is not None and any(nd.get('k') == 'mem' and nd.get('f') == 'used_arch' for nd in cf.walk(ev['rhs'])):
+            l_ = cf.strip_casts(ev['lhs'])
+            if l_.get('k') == 'ref':
+                arch_locals.add(l_['n'])
     for a in sorted(x for x in archs if x is not None):
         nm = inv.get(a, str(a))
         short = nm.replace('IMB_ARCH_', '').lower()
         want = 'init_mb_mgr_%s_internal' % short
-        got = cases.get(a)
-        p2.check(bool(got) and got[0][0] == want and got[0][1] == [0], 'case:' + nm, f.loc,
-                 're-attach of a manager that recorded %s does not call %s(ptr, 0): %s' % (nm, want, got))
+        env = {rsm: 0, '.used_arch': a}
+        for v_ in arch_locals:
+            env[v_] = a
+        got = []
+        for b in f.reachable(None, env):
+            for ev in f.blocks[b]['ev']:
+                if ev['k'] == 'call' and re.match(r'^init_mb_mgr_\w+_internal$', ev['e'].get('fn') or ''):
+                    got.append((ev['e']['fn'], [cf.evalc(x, env) for x in ev['e']['a'][1:]]))
+        p2.check(got == [(want, [0])], 'case:' + nm, f.loc,
+                 're-attach of a manager that recorded %s must call exactly %s(ptr, 0); reachable: %s' % (nm, want, got))
     # the front-ends forward the flag unchanged
     for arch in ('sse', 'avx2', 'avx512'):
         fs = P.find('init_mb_mgr_%s_internal' % arch)
